@@ -618,6 +618,30 @@ impl PeerManager {
         token_type: TokenType,
         peer: Node,
     ) -> Result<(), crate::Error> {
+        //an invite is consumed once: it must still be registered under its own token
+        let invite_token = match &token_type {
+            TokenType::OwnedInvite(owned) => MeetingSecret::derive_token(DERIVE_STRING, &owned.id),
+            TokenType::Invite(invite) => {
+                MeetingSecret::derive_token(DERIVE_STRING, &invite.invite_id)
+            }
+            TokenType::AllowedPeer(_) => {
+                return Err(Error::InvalidInvite("not an invite".to_string()))
+            }
+        };
+        let registered = match self.allowed_token.get(&invite_token) {
+            Some(tokens) => tokens.iter().any(|tt| match (tt, &token_type) {
+                (TokenType::OwnedInvite(a), TokenType::OwnedInvite(b)) => a.id.eq(&b.id),
+                (TokenType::Invite(a), TokenType::Invite(b)) => a.invite_id.eq(&b.invite_id),
+                _ => false,
+            }),
+            None => false,
+        };
+        if !registered {
+            return Err(Error::InvalidInvite(
+                "this invite has already been used".to_string(),
+            ));
+        }
+
         self.services
             .database
             .add_peer_nodes(vec![peer.clone()])
@@ -677,7 +701,8 @@ impl PeerManager {
                     }
                 }
 
-                let o: Option<&mut Vec<TokenType>> = self.allowed_token.get_mut(&token);
+                let o: Option<&mut Vec<TokenType>> =
+                    self.allowed_token.get_mut(&invite_token);
                 if let Some(tokens) = o {
                     let index = tokens.iter().position(|tt| {
                         if let TokenType::OwnedInvite(owned_tok) = tt {
@@ -695,7 +720,7 @@ impl PeerManager {
                     OwnedInvite::list_valid(room_id.clone(), &self.services.database).await?;
             }
             TokenType::Invite(invite) => {
-                let o = self.allowed_token.get_mut(&token);
+                let o = self.allowed_token.get_mut(&invite_token);
                 if let Some(tokens) = o {
                     let index = tokens.iter().position(|tt| {
                         if let TokenType::Invite(i) = tt {
